@@ -70,6 +70,15 @@ func (w *World) setup() {
 		w.n = 16 + c.Choose(17, "nbig")
 		w.proto = JF
 	}
+	// "Fermat" torsion pair (adv mode, rare): A_p + T and A_{p+12} - T with T of order 13 outside
+	// G2. The two components cancel in every SUM of the vector's points, and since x^12 = 1
+	// (mod 13) for every x not divisible by 13, the public key shares of participants 1..12
+	// are unchanged: only a per-point subgroup check sees the vector is invalid. Needs t >= 12.
+	fermat := w.o.Mode == "adv" && c.Bool(1, 20, "fermat")
+	if fermat {
+		w.n = 14 + c.Choose(3, "fermat.n")
+		w.proto = QUAL + c.Choose(2, "fermat.proto")
+	}
 	wide := w.o.Mode == "wide"
 	if wide {
 		// participant indices beyond 127 (byte arithmetic, small-exponent multiplication): one dealer, small t
@@ -89,6 +98,9 @@ func (w *World) setup() {
 	if wide {
 		w.t = 1 + c.Choose(3, "twide")
 	}
+	if fermat {
+		w.t = 12 + c.Choose(w.n-13, "fermat.t")
+	}
 	if w.t < 1 {
 		w.t = 1
 	}
@@ -106,7 +118,7 @@ func (w *World) setup() {
 		if w.o.Mode == "adv" && f == 0 {
 			f = 1
 		}
-		if wide && f > 1 {
+		if (wide || fermat) && f > 1 {
 			f = 1 // n^2 broadcast copies per complaint storm: keep the wide worlds cheap
 		}
 	}
@@ -155,6 +167,9 @@ func (w *World) setup() {
 						w.byz[i].bias[kind] = 1 + c.Weighted(wts[kind], "byz.bias.action")
 					}
 				}
+			}
+			if fermat && w.isDealer(i) {
+				w.byz[i].torsionFermat = true
 			}
 			if w.isDealer(i) {
 				w.makeShadow(w.byz[i], seeds.Bytes(32))
